@@ -215,6 +215,8 @@ class Translator:
         f = v.t
         if f == to: return v
         L = v.lean
+        if to in ('bool', 'i32b') and getattr(v, 'boolsrc', None) is not None:
+            return V(v.boolsrc, to)
         if f == 'i32b':
             if to == 'bool': return V(L, 'bool')
             r = self.conv(V('(if %s then (1 : Int) else (0 : Int))' % L, 'i32'), to, st)
@@ -233,7 +235,9 @@ class Translator:
             if is_signed(f): return V('(%s != (0 : Int))' % L, 'bool')
             return V('(%s != (0 : %s))' % (L, LEAN_T[f]), 'bool')
         if f == 'bool':
-            if is_signed(to): return V('(if %s then (1 : Int) else (0 : Int))' % L, to)
+            if is_signed(to):
+                r = V('(if %s then (1 : Int) else (0 : Int))' % L, to); r.boolsrc = L
+                return r
             return V('(if %s then (1 : %s) else (0 : %s))' % (L, LEAN_T[to], LEAN_T[to]), to)
         if is_unsigned(f) and is_unsigned(to):
             return V('%s.to%s' % (paren(L), LEAN_T[to]), to)
@@ -251,6 +255,19 @@ class Translator:
         raise Unsupported('conv %s -> %s' % (f, to))
 
     # ---------------------------------------------------------------- expressions
+    def strip_all(self, e):
+        while e['kind'] in ('ParenExpr', 'ImplicitCastExpr', 'ConstantExpr') and e.get('inner'):
+            if e['kind'] == 'ImplicitCastExpr' and e.get('castKind') not in ('LValueToRValue', 'NoOp', 'IntegralCast'): break
+            if e['kind'] == 'ImplicitCastExpr' and e.get('castKind') == 'IntegralCast' and \
+                    ctype(e['type']) != ctype(e['inner'][0]['type']): break
+            e = e['inner'][0]
+        return e
+
+    def has_call(self, e):
+        if not isinstance(e, dict): return False
+        if e.get('kind') == 'CallExpr': return True
+        return any(self.has_call(c) for c in e.get('inner', []))
+
     def strip(self, e):
         while e['kind'] in ('ParenExpr', 'ImplicitCastExpr') and e.get('castKind', 'NoOp') in ('LValueToRValue', 'NoOp'):
             e = e['inner'][0]
@@ -356,9 +373,13 @@ class Translator:
         if k == 'ConditionalOperator':
             c = self.cond(e['inner'][0], st, fn)
             n0 = len(st.obl)
+            snap = (dict(st.bufs), len(st.events), {k2: dict(v2) for k2, v2 in st.structs.items()})
             a = self.expr(e['inner'][1], st, fn)
             n1 = len(st.obl)
             b = self.expr(e['inner'][2], st, fn)
+            if st.bufs != snap[0] or len(st.events) != snap[1] or \
+                    any(st.structs[k2][f].lean != v2[f].lean for k2, v2 in snap[2].items() for f in v2 if f != '__type'):
+                raise Unsupported('conditional expression whose branches have side effects')
             st.obl[n1:] = ['(%s || %s)' % (c, o) for o in st.obl[n1:]]
             st.obl[n0:n1] = ['(!%s || %s)' % (c, o) for o in st.obl[n0:n1]]
             t = ctype(e['type'])
@@ -704,6 +725,13 @@ class Translator:
                 tb = self.stmt(s['inner'][2], sb, fn, k) if len(s['inner']) > 2 else k(sb)
                 return If(c, ta, tb)
             return self.flush(st, branches)
+        if kind == 'ReturnStmt' and s.get('inner') and self.strip_all(s['inner'][0])['kind'] == 'ConditionalOperator' \
+                and self.has_call(s['inner'][0]):
+            # return c ? f(..) : g(..);   ==>   if (c) return f(..); else return g(..);   (only one call is executed)
+            co = self.strip_all(s['inner'][0])
+            mk = lambda e: {'kind': 'ReturnStmt', 'inner': [e]}
+            fake = {'kind': 'IfStmt', 'inner': [co['inner'][0], mk(co['inner'][1]), mk(co['inner'][2])]}
+            return self.stmt(fake, st, fn, k)
         if kind == 'ReturnStmt':
             if fn.loop_ctx is not None:
                 fn.loop_ctx.exits.append(('return', s))
